@@ -97,6 +97,11 @@ def judge(d):
     with warnings.catch_warnings():
         warnings.simplefilter("ignore")
         tomo = simulate(comps, d, vol)
+    with warnings.catch_warnings():
+        warnings.simplefilter("ignore")
+        again = simulate(comps, d, vol)
+    if again.shape != tomo.shape or not np.array_equal(again, tomo):
+        out.append(viol("C14/not-reproducible", f"{tag}: simulating the same components twice gave different volumes"))
     if tomo.shape != vol or not np.all(np.isfinite(tomo)):
         out.append(viol("C14/volume", f"{tag}: simulated volume shape {tomo.shape}, finite={bool(np.all(np.isfinite(tomo)))}"))
         return out
